@@ -40,6 +40,8 @@ mod macros;
 mod must_complete;
 mod state;
 mod task;
+#[cfg(era_consensus_verif)]
+pub mod verif;
 
 pub use macros::*;
 use state::{CancelGuard, OrPanic, State, TerminateGuard};
